@@ -17,7 +17,7 @@
 //   after the run (only if it finished), the main thread, outside the scheduler, drains the list with
 //   repeated get(): the set obtained must be exactly { n | owner[n] == -1 }                (no loss)
 //   lost / extra / drain_dup report the differences.
-// A watchdog aborts a case that does not finish in 10 s (a corrupted list can make get() spin forever):
+// A watchdog aborts a case that does not finish in 3 s (a corrupted list can make get() spin forever):
 // "monitor hang" is printed and the process exits with status 3.
 #include <cds/intrusive/free_list.h>
 #include <cds/intrusive/free_list_tagged.h>
@@ -125,7 +125,7 @@ static void watchdog()
     for (;;) {
         std::this_thread::sleep_for( std::chrono::milliseconds( 200 ));
         long s = g_case_started.load();
-        if ( s != 0 && now_ms() - s > 10000 ) {
+        if ( s != 0 && now_ms() - s > 3000 ) {
             std::printf( "case %s\nendcase hang\nmonitor hang\n", g_case_id.c_str());
             std::fflush( stdout );
             _exit( 3 );
